@@ -384,7 +384,7 @@ pub struct BatchOut {
     pub stats: Stats,
     pub violation: Option<(u64, Violation, Value)>,
     pub wall: Duration,
-    /// run index at which a worker process stopped making progress (hang)
+    /// run index at which a worker process stopped making progress (hang) or died
     pub hung_at: Option<u64>,
 }
 
@@ -454,12 +454,26 @@ pub fn run_batch(engine_key: &str, tag: &str, seed: u64, runs: u64, tier: Tier, 
             let exited = child.lock().unwrap().try_wait().ok().flatten().is_some();
             if exited {
                 finished[w] = true;
-                if let Ok(bytes) = std::fs::read(outfile) {
-                    if let Ok(wf) = serde_json::from_slice::<WorkerFile>(&bytes) {
+                let parsed = std::fs::read(outfile).ok().and_then(|b| serde_json::from_slice::<WorkerFile>(&b).ok());
+                match parsed {
+                    Some(wf) => {
                         if let Some((i, _, _)) = &wf.violation {
                             stop_at.fetch_min(*i, Ordering::SeqCst);
                         }
                         results[w] = Some(wf);
+                    }
+                    None => {
+                        // the worker died without a result (abort, stack overflow, ...) unless we
+                        // killed it ourselves because a lower-index violation is already known
+                        let (_, i) = *last.lock().unwrap();
+                        let idx = if i == u64::MAX { w as u64 } else { i };
+                        if idx <= stop_at.load(Ordering::SeqCst) {
+                            let mut h = hung.lock().unwrap();
+                            if h.map(|x| idx < x).unwrap_or(true) {
+                                *h = Some(idx);
+                            }
+                            stop_at.fetch_min(idx, Ordering::SeqCst);
+                        }
                     }
                 }
                 continue;
